@@ -56,6 +56,7 @@ class Memory:
     def __init__(self, eng):
         self.eng = eng
         self.T = eng.T
+        self._extra = []
 
     # ---------------------------------------------------------- materialisation
     def top(self, ti, name):
@@ -319,6 +320,7 @@ class Memory:
         out = State()
         out.key = a.key
         phis = []
+        self._extra = []
         self._widen = loop_head
         for loc in a.locs:
             if loc in b.locs:
@@ -356,7 +358,32 @@ class Memory:
                             cand = Lin.sym(p, c).add(r)
                             if not cand.is_const():
                                 facts.add(cand)
-        out.facts = frozenset(facts)
+        # ordering template: when one incoming value is known to be <= the other on the side where it matters,
+        # the phi lies between them (phi >= la always holds on side A; on side B it needs lb >= la, etc.)
+        for (p, la, lb) in phis:
+            if la is None or lb is None or len(facts) > 400:
+                continue
+            d = lb.sub(la)
+            if len(d.t) > 6:
+                continue
+            ph = Lin.sym(p)
+            if d.is_const():
+                lo_, hi_ = (la, lb) if d.c >= 0 else (lb, la)
+                facts.add(ph.sub(lo_))
+                facts.add(hi_.sub(ph))
+                continue
+            if entails(d, b.facts, eng.bounds, 1):      # lb >= la on side B  => phi >= la
+                facts.add(ph.sub(la))
+            if entails(d, a.facts, eng.bounds, 1):      # la <= lb on side A  => phi <= lb
+                facts.add(lb.sub(ph))
+            nd = d.neg()
+            if entails(nd, a.facts, eng.bounds, 1):     # la >= lb on side A  => phi >= lb
+                facts.add(ph.sub(lb))
+            if entails(nd, b.facts, eng.bounds, 1):     # lb <= la on side B  => phi <= la
+                facts.add(la.sub(ph))
+        for f in self._extra:
+            facts.add(f)
+        out.facts = frozenset(f for f in facts if not f.is_const())
         # variant guards: facts that hold only on one side are remembered per enum variant
         loA = a.facts - out.facts
         loB = b.facts - out.facts
@@ -468,7 +495,7 @@ class Memory:
             return Struct(va.ty, tuple(self.join_val(x, y, "%s.%d" % (name, i), phis, depth + 1) for i, (x, y) in enumerate(zip(va.fields, vb.fields))))
         if isinstance(va, Arr) and isinstance(vb, Arr) and len(va.elems) == len(vb.elems):
             return Arr(va.ty, tuple(self.join_val(x, y, "%s[%d]" % (name, i), phis, depth + 1) for i, (x, y) in enumerate(zip(va.elems, vb.elems))))
-        if isinstance(va, Enum) and isinstance(vb, Enum) and va.ty == vb.ty:
+        if isinstance(va, Enum) and isinstance(vb, Enum) and self.T.same(va.ty, vb.ty):
             da, db = dict(va.variants), dict(vb.variants)
             vs = []
             for vi in sorted(set(da) | set(db)):
@@ -481,6 +508,12 @@ class Memory:
                 else:
                     vs.append((vi, da[vi] if vi in da else db[vi]))
             return Enum(va.ty, tuple(vs), va.name if va.name == vb.name else name)
+        if isinstance(va, Slice) and isinstance(vb, Slice) and va.base == vb.base and va.off.add(va.len) == vb.off.add(vb.len):
+            # both are views ending at the same position (suffixes of one parser input): keep off + len exact
+            end = va.off.add(va.len)
+            off = self.join_val(_li(va.off), _li(vb.off), name + ".off", phis, depth + 1)
+            self._extra.append(end.sub(off.lin))  # the length of a slice is never negative
+            return Slice(va.base, off.lin, end.sub(off.lin), va.elem if va.elem == vb.elem else None)
         if isinstance(va, Slice) and isinstance(vb, Slice) and va.base == vb.base:
             off = self.join_val(_li(va.off), _li(vb.off), name + ".off", phis, depth + 1)
             ln = self.join_val(_li(va.len, True), _li(vb.len, True), name + ".len", phis, depth + 1)
@@ -507,7 +540,7 @@ class Memory:
             return self._top_of(va, vb, name)
         if isinstance(va, Fn) and isinstance(vb, Fn):
             return Fn(va.items | vb.items)
-        if isinstance(va, Top) and isinstance(vb, Top) and va.ty == vb.ty:
+        if isinstance(va, Top) and isinstance(vb, Top) and self.T.same(va.ty, vb.ty):
             return Top(va.ty, "phi(%s)" % name)
         if isinstance(va, Flt) and isinstance(vb, Flt):
             return Flt(("sym", "phi(%s)" % name), va.w)
